@@ -145,16 +145,19 @@ def run(ck):
                      "also entered by falling through) are miscompiled: %s" % (("program jt7 index %d: %s; validator: %s" % (b0["index"], b0["X"], " ".join(mres.get(b0["index"], ("none", "")))[:200])) if b0 else "harness rc=%d" % rc),
                      {"probe": "jt7", "index": b0["index"] if b0 else -1, "execution": b0["X"] if b0 else None},
                      no_input=not (rc != 0 or any((b["X"] or "").startswith("diverge") for b in jt_bad)))
-    # recorded, not yet repaired defect: AArch64 register lists (ld1/st1 {v,v,..}) - the consecutive OUT registers are
-    # chosen without regard to live values. 120 fixed programs with lists; while the defect is present the random AArch64
-    # stream runs without lists.
+    # detector for the repaired defect bc95664 (consecutive OUT registers of ld1 {v,v,..} overwrote live values): 120 fixed
+    # programs with register lists; a refusal by the allocator for conflicting lists is the separate recorded finding.
     rc, out, err = run_harness(impl, ["a64", 777, 0, 120, 0, 1], timeout=600)
     _, mres, _ = run_model(model, out)
     blocks = parse_blocks(out)
-    lst_bad = [b for b in blocks if mres.get(b["index"], ("none", ""))[0] != "ok"]
-    a64_lists = 1 if (rc == 0 and len(blocks) == 120 and not lst_bad) else 0
-    probe_results["a64-register-lists"] = {"programs": len(blocks), "refused": len(lst_bad), "harness_rc": rc}
-    if not a64_lists:
+    lst_refused = [b for b in blocks if b["G"] and "ConsecutiveRegsAllocation" in b["G"]]
+    lst_bad = [b for b in blocks if not (b["G"] and "ConsecutiveRegsAllocation" in b["G"]) and mres.get(b["index"], ("none", ""))[0] != "ok"]
+    a64_lists = 1        # the random AArch64 stream runs with register lists (bc95664 repaired the clobbering)
+    if lst_refused:
+        ck.violation("C05/a64/conflicting-lists-refused", "a64::Compiler refuses a valid function with conflicting register lists: %s (a64 seed 777 index %d)" %
+                     (lst_refused[0]["G"], lst_refused[0]["index"]), {"a64": True, "seed": 777, "index": lst_refused[0]["index"], "lists": 1})
+    probe_results["a64-register-lists"] = {"programs": len(blocks), "refused_by_validator": len(lst_bad), "refused_by_allocator": len(lst_refused), "harness_rc": rc}
+    if rc != 0 or len(blocks) != 120 or lst_bad:
         b0 = lst_bad[0] if lst_bad else None
         mv0 = mres.get(b0["index"], ("none", "")) if b0 else ("none", "")
         ce = "ir-counterexample" in mv0[1]
@@ -273,6 +276,11 @@ def run(ck):
         for b in blocks:
             a64["programs"] += 1
             idx = b["index"]
+            if b["G"] and "ConsecutiveRegsAllocation" in b["G"]:
+                a64["refused_conflicting_lists"] = a64.get("refused_conflicting_lists", 0) + 1
+                ck.violation("C05/a64/conflicting-lists-refused", "a64::Compiler refuses a valid function with conflicting register lists: %s (seed=%d index=%d)" % (b["G"], seed, idx),
+                             {"a64": True, "seed": seed, "index": idx, "lists": 1})
+                continue
             if b["G"]:
                 ck.violation("C05/a64/ra-error", "a64::Compiler returned an error for a valid generated program: %s (seed=%d index=%d)" % (b["G"], seed, idx),
                              {"a64": True, "seed": seed, "index": idx})
